@@ -463,3 +463,34 @@ mod tests {
         assert!(!visibility.removed.contains(&Entity::PLACEHOLDER));
     }
 }
+
+/// Read-only accessor for external verification harnesses.
+#[cfg(replicon_verif)]
+impl ClientVisibility {
+    /// Returns `(is_whitelist, list entries, added, removed)`.
+    ///
+    /// Entry codes: blacklist `0` = hidden, `1` = queued for removal;
+    /// whitelist `0` = visible, `1` = just added.
+    pub fn verif_snapshot(&self) -> (bool, Vec<(Entity, u8)>, Vec<Entity>, Vec<Entity>) {
+        let (whitelist, list) = match &self.list {
+            VisibilityList::Blacklist(list) => (
+                false,
+                list.iter()
+                    .map(|(&e, &info)| (e, (info == BlacklistInfo::QueuedForRemoval) as u8))
+                    .collect(),
+            ),
+            VisibilityList::Whitelist(list) => (
+                true,
+                list.iter()
+                    .map(|(&e, &info)| (e, (info == WhitelistInfo::JustAdded) as u8))
+                    .collect(),
+            ),
+        };
+        (
+            whitelist,
+            list,
+            self.added.iter().copied().collect(),
+            self.removed.iter().copied().collect(),
+        )
+    }
+}
